@@ -39,7 +39,7 @@ type RecoveryReplay struct {
 }
 
 const c03Rule = "rapid-generated sequential workloads (C01 operations, Flush, iteration, primary and index GC cycles with and without unflushed changes and call budgets, Close/reopen through snapshot and rescan) run with a handler on the named points that captures the directory before every file-system step; " +
-	"crash states = every captured image + for every single write between two images every byte prefix of the written region (append, create, in-place rewrite = truncate+write, positional overwrite); steps that change more than one thing between two points are counted as hook_gaps. Quick: a few drawn states per workload; thorough: every state of every workload (exhaustive per workload up to a cap), plus states captured inside the recovery open itself (second level). " +
+	"crash states = every captured image + for every single write between two images every byte prefix of the written region (append, create, in-place rewrite = truncate+write, positional overwrite); steps that change more than one thing between two points are counted as hook_gaps. Quick: a few drawn states per workload; thorough: every state of every workload (exhaustive per workload up to a cap), plus states captured inside the recovery open itself (second level); after the post-recovery history the recovered store is flushed and its files copied once more (a second crash after a completed flush), and the copy must hold exactly the model. " +
 	"oracle = durability model: OpenStore on the image must succeed; every key reads without error a value it had between the last completed Flush/Close and the operation in progress at the crash (every instant at which the same bytes were on disk must be satisfied), never bytes never written for it; Has/GetSize agree; then a generated suffix (puts, removes, flushes, GC cycles, reopen) must behave exactly like the map model seeded with what was read. " +
 	"non-trivial = a state strictly inside an operation (not between operations) of a workload that superseded a flushed key; distinct = distinct (image hash, expectations)"
 
@@ -269,6 +269,15 @@ func checkRecovery(rp RecoveryReplay, rec *crashRecorder) (v *Violation) {
 		if v := sub.checkIter(n, "final"); v != nil {
 			return v
 		}
+		// The process dies a second time, after a completed flush of the
+		// recovered store: whatever recovery left behind in the files must not
+		// disturb the next recovery.
+		if err := sub.s.Flush(); err != nil {
+			return viol("flush-error|final|"+errClass(err), n, "Flush on the recovered store: %v", err)
+		}
+		if v := secondCrash(readDirImage(dir), rp, sub.model, n); v != nil {
+			return v
+		}
 		s := sub.s
 		sub.s = nil
 		if err := s.Close(); err != nil {
@@ -276,6 +285,34 @@ func checkRecovery(rp RecoveryReplay, rec *crashRecorder) (v *Violation) {
 		}
 		return nil
 	}))
+}
+
+// secondCrash opens an image taken right after a completed flush and requires
+// exactly the model contents.
+func secondCrash(img dirImage, rp RecoveryReplay, model map[string][]byte, step int) *Violation {
+	dir := newScratch("rec2")
+	defer os.RemoveAll(dir)
+	img.writeTo(dir)
+	s, err := openStore(dir, rp.Cfg)
+	if err != nil {
+		return viol("second-crash|open|"+errClass(err), step, "the recovered store was flushed and its files copied (second crash); OpenStore on the copy failed: %v", err)
+	}
+	defer closeQuietly(s)
+	for _, ks := range rp.Keys {
+		want, present := model[string(ks.Digest)]
+		got, found, err := s.Get(ks.Encode(rp.Cfg.Primary, false))
+		switch {
+		case err != nil:
+			return viol("second-crash|get|"+errClass(err), step, "second crash after a completed flush: Get(%x) returned %v", ks.Digest, err)
+		case present && !found:
+			return viol("second-crash|get|absent-but-durable", step, "second crash after a completed flush of the recovered store: Get(%x) says absent, it was present (%s) at that flush", ks.Digest, shortBytes(want))
+		case !present && found:
+			return viol("second-crash|get|removed-key-back", step, "second crash after a completed flush of the recovered store: Get(%x) = %s, the key was absent at that flush", ks.Digest, shortBytes(got))
+		case present && !bytes.Equal(got, want):
+			return viol("second-crash|get|stale-value", step, "second crash after a completed flush of the recovered store: Get(%x) = %s, want %s", ks.Digest, shortBytes(got), shortBytes(want))
+		}
+	}
+	return nil
 }
 
 type crashRun struct {
